@@ -35,6 +35,147 @@ fn speculation_safe(cmds: &[Cmd], cap: usize) -> bool {
     !matches!(p.halt, Halt::Cap | Halt::Memory | Halt::Ended(End::Unspecified(_)))
 }
 
+/// Features of a terminating program around the point where level-2 pre-execution must stop
+/// (the first read of stdin), computed with the reference model.  The generator keeps, out of
+/// many cheap candidates, the one matching most of a randomly drawn target set, so that the few
+/// programs a check can afford to compile are the ones that stress the pre-state hand-over.
+pub mod feat {
+    pub const READS: u32 = 1 << 0;
+    pub const LABELS_BEFORE: u32 = 1 << 1;
+    pub const TWO_LABELS_ONE_COMMAND: u32 = 1 << 2;
+    pub const PENDING_SOURCE: u32 = 1 << 3;
+    pub const BIG_INT_ON_STACK: u32 = 1 << 4;
+    pub const FRACTION_ON_STACK: u32 = 1 << 5;
+    pub const NEGATIVE_ON_STACK: u32 = 1 << 6;
+    pub const NAN_ON_STACK: u32 = 1 << 7;
+    pub const STACK0_NONEMPTY: u32 = 1 << 8;
+    pub const OUTPUT_BEFORE: u32 = 1 << 9;
+    pub const BRACE_BEFORE: u32 = 1 << 10;
+    pub const JUMP_BACK_INTO_PREFIX: u32 = 1 << 11;
+    pub const HEART_RETURN_AFTER: u32 = 1 << 12;
+    pub const HIGH_STACK_NONEMPTY: u32 = 1 << 13;
+    pub const STDERR_BEFORE: u32 = 1 << 14;
+    pub const EXIT_AFTER: u32 = 1 << 15;
+    pub const JUMP_BEFORE: u32 = 1 << 16;
+    pub const N: u32 = 17;
+    pub const NAMES: [&str; 17] = [
+        "reads_input",
+        "labels_registered_before_read",
+        "two_labels_on_one_command",
+        "pending_jump_source_at_read",
+        "integer_over_32_bits_on_stack_at_read",
+        "fraction_on_stack_at_read",
+        "negative_on_stack_at_read",
+        "nan_on_stack_at_read",
+        "stack0_holds_values_at_read",
+        "stdout_before_read",
+        "brace_in_output_before_read",
+        "jump_back_into_pre_executed_part",
+        "heart_return_after_read",
+        "stack_above_3_holds_values_at_read",
+        "stderr_before_read",
+        "program_exit_after_read",
+        "jump_before_read",
+    ];
+}
+
+pub fn boundary_features(cmds: &[Cmd], stdin: &[u8], budget: u64) -> u32 {
+    use crate::refnum::Rat;
+    let mut m = reflang::Machine::new();
+    let mut f = 0u32;
+    let mut boundary_labels: Vec<usize> = Vec::new();
+    let mut seen_read = false;
+    if cmds.is_empty() {
+        return 0;
+    }
+    while m.steps < budget && m.pc < cmds.len() {
+        // snapshot of what pre-execution would hand over if this step is the first to read
+        let mut snap = 0u32;
+        if !seen_read {
+            let mut per_cmd = std::collections::HashMap::new();
+            for (_, idx) in m.labels.iter() {
+                *per_cmd.entry(*idx).or_insert(0u32) += 1;
+            }
+            if !m.labels.is_empty() {
+                snap |= feat::LABELS_BEFORE;
+            }
+            if per_cmd.values().any(|c| *c >= 2) {
+                snap |= feat::TWO_LABELS_ONE_COMMAND;
+            }
+            if m.last.is_some() {
+                snap |= feat::PENDING_SOURCE;
+            }
+            for (i, st) in m.stacks.iter() {
+                if st.is_empty() {
+                    continue;
+                }
+                if *i == 0 {
+                    snap |= feat::STACK0_NONEMPTY;
+                }
+                if *i > 3 {
+                    snap |= feat::HIGH_STACK_NONEMPTY;
+                }
+                for v in st {
+                    match v {
+                        Rat::NaN => snap |= feat::NAN_ON_STACK,
+                        Rat::V { n, d } => {
+                            if !d.is_one() {
+                                snap |= feat::FRACTION_ON_STACK;
+                            } else if n.bits() > 32 {
+                                snap |= feat::BIG_INT_ON_STACK;
+                            }
+                            if n.is_neg() {
+                                snap |= feat::NEGATIVE_ON_STACK;
+                            }
+                        }
+                    }
+                }
+            }
+            if !m.out.is_empty() {
+                snap |= feat::OUTPUT_BEFORE;
+                if m.out.contains(&b'{') || m.out.contains(&b'}') {
+                    snap |= feat::BRACE_BEFORE;
+                }
+            }
+            if !m.err.is_empty() {
+                snap |= feat::STDERR_BEFORE;
+            }
+            if m.probes[probe::JUMP] > 0 {
+                snap |= feat::JUMP_BEFORE;
+            }
+        }
+        let reads_before = m.probes[probe::READ_LINE] + m.probes[probe::READ_EOF];
+        let jumps_before = m.probes[probe::JUMP];
+        let rets_before = m.probes[probe::HEART_RETURN];
+        let pc = m.pc;
+        let r = m.step(cmds, stdin);
+        if !seen_read && m.probes[probe::READ_LINE] + m.probes[probe::READ_EOF] > reads_before {
+            seen_read = true;
+            f |= feat::READS | snap;
+            boundary_labels = m.labels.values().copied().filter(|&i| i < pc).collect();
+        }
+        if seen_read {
+            if m.probes[probe::JUMP] > jumps_before && r.is_ok() && boundary_labels.contains(&m.pc) {
+                f |= feat::JUMP_BACK_INTO_PREFIX;
+            }
+            if m.probes[probe::HEART_RETURN] > rets_before {
+                f |= feat::HEART_RETURN_AFTER;
+            }
+        }
+        match r {
+            Ok(()) => {}
+            Err(End::Exit(_)) => {
+                if seen_read {
+                    f |= feat::EXIT_AFTER;
+                }
+                break;
+            }
+            Err(_) => break,
+        }
+    }
+    f
+}
+
 impl Property for C03 {
     fn id(&self) -> &'static str {
         "C03"
@@ -48,7 +189,7 @@ impl Property for C03 {
     }
     fn runs(&self, tier: Tier) -> u64 {
         match tier {
-            Tier::Quick => 64,
+            Tier::Quick => 96,
             Tier::Thorough => 4000,
         }
     }
@@ -102,8 +243,17 @@ impl Property for C03 {
                 }
             }
         }
-        // rejection sampling: the compiled program cannot be stopped by the step clock
-        for attempt in 0..40 {
+        // coverage-guided choice among cheap candidates: a random target set of boundary features,
+        // the terminating candidate matching most of it wins (the model run costs microseconds,
+        // the three rustc runs that follow cost a second)
+        let mut target = 0u32;
+        for _ in 0..rng.usize(2, 4) {
+            target |= 1 << rng.below(feat::N as u64);
+        }
+        target |= feat::READS;
+        let mut best: Option<(u32, Vec<Cmd>, Vec<u8>)> = None;
+        let tries = if tier == Tier::Quick { 120 } else { 200 };
+        for attempt in 0..tries {
             let mut sw = gen::swarm(rng, Flavor::Compile);
             sw.max_d = 400;
             sw.big_h_pct = 0;
@@ -111,14 +261,14 @@ impl Property for C03 {
                 Tier::Quick => 14,
                 Tier::Thorough => *rng.pick(&[8usize, 14, 14, 24, 48]),
             };
-            let mut cmds = if rng.chance(12) { gen::goto_machine(rng, false) } else { gen::gen_program(rng, &sw, Flavor::Compile, max_cmds) };
+            let mut cmds = if rng.chance(25) { gen::goto_machine(rng, false) } else { gen::gen_program(rng, &sw, Flavor::Compile, max_cmds) };
             if rng.chance(25) {
                 gen::optimizer_hazard(rng, &mut cmds);
             }
             if rng.chance(50) {
                 gen::small_loop(rng, &mut cmds);
             }
-            if rng.chance(15) {
+            if rng.chance(30) {
                 gen::arith_template(rng, &mut cmds);
             }
             if rng.chance(12) {
@@ -131,7 +281,7 @@ impl Property for C03 {
                     cmds.insert(pos + i, c);
                 }
             }
-            if rng.chance(55) {
+            if rng.chance(75) {
                 // boundary: the pre-executed prefix stops here (input needed), later code returns to stack 3
                 let pos = rng.usize(1, cmds.len());
                 let area = if rng.chance(50) { gen::gen_area(rng, &sw, 3) } else { RArea::Nil };
@@ -141,11 +291,18 @@ impl Property for C03 {
             }
             let stdin = gen::gen_stdin(rng, 30);
             if terminating(&cmds, &stdin, sc.budget, sc.cap_bits).is_some() && speculation_safe(&cmds, 128) {
-                sc.cmds = cmds;
-                sc.stdin = stdin;
-                sc.set_knob("attempt", attempt);
-                break;
+                let f = boundary_features(&cmds, &stdin, sc.budget);
+                let score = (f & target).count_ones() * 4 + f.count_ones();
+                if best.as_ref().map_or(true, |b| score > b.0) {
+                    best = Some((score, cmds, stdin));
+                    sc.set_knob("attempt", attempt as i64);
+                }
             }
+        }
+        if let Some((_, cmds, stdin)) = best {
+            sc.cmds = cmds;
+            sc.stdin = stdin;
+            sc.set_knob("target_features", target as i64);
         }
         let ff = rng.chance(30);
         sc.plan = gen::gen_plan(rng, ff);
@@ -178,6 +335,12 @@ impl Property for C03 {
         let n = sc.cmds.len() as u64;
         let areas = sc.cmds.iter().filter(|c| !c.area.is_nil()).count();
         out.add("programs", 1);
+        let bf = boundary_features(&sc.cmds, &sc.stdin, sc.budget);
+        for (i, name) in feat::NAMES.iter().enumerate() {
+            if bf & (1 << i) != 0 {
+                out.add(name, 1);
+            }
+        }
         out.add("area_carrying_commands", areas as u64);
         out.add("jump_taken", pf.m.probes[probe::JUMP]);
         out.add("heart_return_taken", pf.m.probes[probe::HEART_RETURN]);
